@@ -178,6 +178,49 @@ example : rfcPrecond { ifMatch := some (.tags [.foreign 1]), ifUnmodifiedSince :
 example : rfcPrecond { ifUnmodifiedSince := some 0 } (some (.foreign 1)) 5 = some .precond := by decide
 example : rfcPrecond { ifMatch := some .star, ifNoneMatch := some (.tags [.foreign 1]) } (some (.foreign 1)) 5 = some .notModified := by decide
 
+/-! #### the decision table, row by row -/
+
+/-- one condition of a request: absent, present and satisfied by the commit, present and violated -/
+inductive Tri where
+  | absent | holds | fails
+  deriving DecidableEq, Repr
+
+/-- a request whose four conditions are in the given states against a commit with token `.foreign 0`
+committed at time 10 (`If-Match` / `If-None-Match` as one-element lists; dates one tick off) -/
+def tableOpts (im inm ius ims : Tri) : GetOpts :=
+  { ifMatch := match im with | .absent => none | .holds => some (.tags [.foreign 0]) | .fails => some (.tags [.foreign 1]),
+    ifNoneMatch := match inm with | .absent => none | .holds => some (.tags [.foreign 1]) | .fails => some (.tags [.foreign 0]),
+    ifUnmodifiedSince := match ius with | .absent => none | .holds => some 10 | .fails => some 9,
+    ifModifiedSince := match ims with | .absent => none | .holds => some 9 | .fails => some 10 }
+
+/-- RFC 9110 §13.2.2 as a table over the four condition states -/
+def tableOut (im inm ius ims : Tri) : Option Err :=
+  if im = .fails then some .precond
+  else if im = .absent ∧ ius = .fails then some .precond
+  else if inm = .fails then some .notModified
+  else if inm = .absent ∧ ims = .fails then some .notModified
+  else none
+
+/-- **precond_decision_table.** All 81 combinations of the four read conditions (each absent /
+satisfied / violated): the wrapper's `check_get_preconditions` and the reference's
+`GetOptions::check_preconditions` give the same outcome, and it is the RFC table's — a violated
+`If-Match` (or, without `If-Match`, a violated `If-Unmodified-Since`) is 412 whatever the rest says;
+otherwise a violated `If-None-Match` (or, without it, a violated `If-Modified-Since`) is 304;
+otherwise the read is served. (`precond_spec` is the same for arbitrary tag lists, `*` and dates; the
+harness runs these 81 requests against both stores and the model: cases `table-*`.) -/
+theorem precond_decision_table (im inm ius ims : Tri) :
+    (checkGetPreconditions (tableOpts im inm ius ims) (some (.foreign 0)) (some 10)).toOption.isSome =
+      (tableOut im inm ius ims).isNone ∧
+    (match checkGetPreconditions (tableOpts im inm ius ims) (some (.foreign 0)) (some 10) with
+      | .error e => some e | .ok _ => none) = tableOut im inm ius ims ∧
+    (match checkPreconditions (tableOpts im inm ius ims) (some (.foreign 0)) 10 with
+      | .error e => some e | .ok _ => none) = tableOut im inm ius ims := by
+  cases im <;> cases inm <;> cases ius <;> cases ims <;> decide
+
+example : tableOut .holds .fails .fails .fails = some .notModified := by decide
+example : tableOut .absent .holds .fails .holds = some .precond := by decide
+example : tableOut .holds .absent .fails .holds = none := by decide
+
 /-- **cond_read_sound_sched.** Interleaving model (`Model/ObjStoreConc.lean`): any number of `get_opts`
 calls (get / head / ranged get with any combination of `if_match` / `if_none_match` lists and `*` /
 date conditions; each call = resolve → check → fetch payload → on a vanished payload re-resolve →
